@@ -232,13 +232,28 @@ def table_deltas(tab, chain):
 
 
 def make_cov_inputs(rng, nnames):
+    """covariance inputs of dimension 1-3: full matrices, and DIAGONAL ones given either as a diagonal matrix or as the
+    1-d list of variances (uncorrelated external inputs)."""
     pe = PE
     out = {}
     for name in ['cvA', 'cvB', 'cvA1'][:nnames]:
         dim = int(rng.integers(1, 4))
         means = rng.uniform(0.5, 2.0, size=dim)
-        sig = gen.cov_matrix(rng, dim) * 0.01
-        o = pe.cov_Obs(means.tolist() if dim > 1 else float(means[0]), sig if dim > 1 else float(sig[0, 0]), name)
+        form = 'full'
+        if dim == 1:
+            sig = gen.cov_matrix(rng, 1) * 0.01
+            arg = float(sig[0, 0]) if rng.random() < 0.7 else [float(sig[0, 0])]
+        else:
+            form = str(rng.choice(['full', 'diagonal_matrix', 'variances']))
+            if form == 'full':
+                sig = gen.cov_matrix(rng, dim) * 0.01
+                arg = sig
+            else:
+                var = rng.uniform(0.2, 3.0, size=dim) * 0.01          # clearly different variances
+                sig = np.diag(var)
+                arg = sig if form == 'diagonal_matrix' else (var.tolist() if rng.random() < 0.5 else var)
+        CTX.cell('covinput', 'dim%d' % dim, form)
+        o = pe.cov_Obs(means.tolist() if dim > 1 else float(means[0]), arg, name)
         out[name] = ([o] if dim == 1 else list(o), means, sig)
     return out
 
@@ -253,11 +268,16 @@ def external_function(rng, covin):
     for n in use:
         obs, means, sig = covin[n]
         dim = len(obs)
-        kind = str(rng.choice(['linear', 'product', 'exp', 'ratio']))
+        kind = str(rng.choice(['linear', 'linear', 'product', 'exp', 'ratio', 'single']))
         w = rng.uniform(0.3, 2.0, size=dim) * rng.choice([-1, 1], size=dim)
         if kind == 'linear':
             term = sum(float(w[k]) * obs[k] for k in range(dim))
             g = w.copy()
+        elif kind == 'single':                      # one component only (no mixing)
+            k0 = int(rng.integers(0, dim))
+            term = float(w[k0]) * obs[k0]
+            g = np.zeros(dim)
+            g[k0] = w[k0]
         elif kind == 'product':
             term = float(w[0]) * obs[0]
             for k in range(1, dim):
